@@ -566,7 +566,7 @@ class Interp:
                 body = s.body
                 for i in range(lo, hi):
                     env[it] = i
-                    self.stmts(body, env)
+                    self.scoped(body, env)
             if had:
                 env[it] = old
             else:
@@ -651,7 +651,7 @@ class Interp:
                 frame[1] = sets
                 env[it] = i
                 n0 = self.nalloc
-                self.stmts(s.body, env)
+                self.scoped(s.body, env)
                 # storage allocated inside the iteration is private to it
                 if self.nalloc > n0:
                     sets = tuple(
